@@ -684,3 +684,22 @@ def run(repo: Repo, rep: Report, tier: str) -> None:
     # ---------------- R19 --------------------------------------------------------------
     _borrow01b(repo, rep, "C12", "C12-R10", "C01-R19", "an operand is not added to by a foreign value of the same signal type: `x = a * b; y = c * b` with a and c on one signal "
                "computes a * b and c * b, not (a + c) * b", floor=1)
+
+    # ---------------- R20 --------------------------------------------------------------
+    rep.rule("C01-R20", "two operands of one combinator that share a source are still two operands: `(a + b) - a` feeds a into the same combinator twice, once inside the merge and once "
+             "alone, and the two uses need different colours (a alone on one, a + b on the other) — the per-sink grouping of the colour planner keeps one entry per "
+             "(source, use), so a table keyed by the source alone, which silently drops the second use, is a defect")
+    pw20 = repo.func("plan_wire_colors")
+    dedups = []
+    for st in walk_local(pw20.node):
+        # <seen>[<key>] = <merge id> under `if <key> not in <seen>`: the de-duplication of a sink's entries
+        if isinstance(st, ast.Assign) and isinstance(st.targets[0], ast.Subscript) and isinstance(st.targets[0].value, ast.Name) and isinstance(st.targets[0].slice, ast.Name) \
+                and isinstance(st.value, ast.Name) and "merge" in st.value.id:
+            dedups.append(st)
+    if not dedups:
+        raise AnalysisError("C01-R20: the per-sink de-duplication of plan_wire_colors was not found")
+    for st in dedups:
+        keyname = st.targets[0].slice.id
+        per_use = "merge" in keyname  # a key that carries the merge id tells two uses of one source apart
+        rep.check(per_use, "C01-R20", "plan_wire_colors keeps one entry per (source, use) at a sink", f"key `{keyname}`" if per_use else
+                  f"`{norm(st)}` keeps the first use of a source at a sink and drops the others: the source gets one colour for the merge it is part of and for its own operand", pw20.loc(st))
